@@ -99,7 +99,7 @@ func gen(g *kernel.Rng, seed uint64, tier string) *kernel.Plan {
 		for i := 0; i < n; i++ {
 			p.Ops = append(p.Ops, kernel.Op{K: []string{"WithStack", "WithMessage", "Wrap", "Wrapf", "Foreign"}[g.Pick(3, 3, 3, 3, 2)], S: []string{fmt.Sprintf("layer %d %s", i, []string{"", "a: b", "%v", "é"}[g.Intn(4)])}})
 		}
-		p.Cfg["root"] = int64(g.Intn(5))
+		p.Cfg["root"] = int64(g.Intn(7))
 	}
 	p.Tape = kernel.GenTape(g, g.Range(0, 120), 0.25)
 	p.TapeSeed = g.U64() | 1
@@ -865,7 +865,7 @@ func (e *foreignErr) Error() string { return e.msg + ": " + e.inner.Error() }
 func (e *foreignErr) Cause() error  { return e.inner }
 
 func runErrors(p *kernel.Plan, res *kernel.Result) {
-	roots := []error{io.EOF, errors.New("root cause"), &plainErr{"plain: with colon"}, oe.New("oryx new"), oe.Errorf("oryx %v", 42)}
+	roots := []error{io.EOF, errors.New("root cause"), &plainErr{"plain: with colon"}, oe.New("oryx new"), oe.Errorf("oryx %v", 42), rtmpx.ErrInjRead, fmt.Errorf("read tcp: %w", errors.New("connection reset"))}
 	root := roots[int(p.C("root"))%len(roots)]
 	// nil stays nil through every constructor
 	if oe.WithStack(nil) != nil || oe.WithMessage(nil, "m") != nil || oe.Wrap(nil, "m") != nil || oe.Wrapf(nil, "m %d", 1) != nil || oe.Cause(nil) != nil {
